@@ -151,6 +151,23 @@ var c09Ops = []string{
 	"g := func(...a) { return a }; d1 = g(imm...); d1[0] = X", "d1 = {a: 0}; for k, v in imm { d1[k] = v }; d1.a = X", "imm.pi = 3", "imm.abs = X", "imm.__module_name__ = \"x\"",
 }
 
+// c09RandSliceOp: a slice of the immutable value with random bounds (empty, one element, the tail, the whole, bounds at
+// and beyond the length) followed by a growing or writing operation on the slice; repeated so that spare capacity of the
+// first result is what the second one writes into.
+func c09RandSliceOp(r *rand.Rand) string {
+	bound := func() string {
+		return pick(r, []string{"", "0", "1", "2", "3", "len(imm)", "len(imm)-1", "len(imm)-2", "99", "-1"})
+	}
+	src := pick(r, []string{"imm", "imm", "imm", "freeze(imm)", "immutable(imm)", "imm[0]", "imm.a"})
+	var sb strings.Builder
+	sb.WriteString("d1 = " + src + "[" + bound() + ":" + bound() + "]; ")
+	for i, n := 0, 1+r.Intn(3); i < n; i++ {
+		sb.WriteString(pick(r, []string{"d1 = append(d1, X); ", "d2 = append(d1, Y); ", "d2 = append(d1, X, Y, X); ", "d1 = append(d1); ", "if len(d1) > 0 { d1[0] = Y }; ", "d1 = splice(d1, 0, 0, X); ",
+			"splice(d1, 0, 0, Y, Y); ", "d2 = d1[:]; d2 = append(d2, X); ", "d1 = d1[:0]; d1 = append(d1, Y); ", "d2 = d1 + [X]; d2[0] = Y; ", "if len(d1) > 1 { d1[len(d1)-1] = X }; "}))
+	}
+	return sb.String()
+}
+
 func c09Subst(r *rand.Rand, op string) string {
 	vals := []string{"99", "\"w\"", "[7, 8]", "{q: 1}", "undefined", "-1", "true"}
 	op = strings.ReplaceAll(op, "X", pick(r, vals))
@@ -253,6 +270,9 @@ func (c *c09) RunCase(r *fw.Rec, cs fw.Case) {
 	var steps []string
 	for i := 0; i < nsteps; i++ {
 		op := c09Subst(rng, pick(rng, c09Ops))
+		if rng.Intn(5) == 0 {
+			op = c09Subst(rng, c09RandSliceOp(rng))
+		}
 		if deep && rng.Intn(4) == 0 {
 			// writes to the freeze argument must stay invisible in the result
 			op = pick(rng, []string{"if is_array(src) { src[0] = 123 }; if is_map(src) { src.a = 123 }", "if is_array(src) && is_array(src[0]) { src[0][0] = 77 }; if is_map(src) && is_map(src.a) { src.a.k = 77 }",
